@@ -11,7 +11,7 @@ struct Res { int family; Bytes addr; int ttl; unsigned port; };
 
 struct Req {
   int id = 0; std::string kind = "query", name, script = "none"; int qtype = 1; int family = AF_INET; int ai_flags = 0; unsigned port = 0;
-  bool started = false; int calls = 0; int status = -1; int timeouts = 0; int64_t t_start = 0, t_end = 0; bool sync_done = false; bool in_start = false;
+  bool started = false; int calls = 0; int status = -1; int timeouts = 0; int64_t t_start = 0, t_end = 0; uint64_t tick_start = 0, tick_end = 0; bool sync_done = false; bool in_start = false;
   bool accepted = true;            // entry point took the request (callback owed)
   int calls_after_destroy = 0; int parent = -1;
   size_t tx_at_start = 0, tx_at_end = 0; size_t prov_at_end = 0;
@@ -47,6 +47,7 @@ struct Sim {
   size_t steps = 0, drain_steps = 0; bool stuck = false; bool budget_exhausted = false; bool astronomic = false;
   size_t c07_checks = 0, c07_multi = 0;
   std::vector<int64_t> reconfig_times;     // set_servers / reinit instants (cache must be empty afterwards)
+  std::vector<uint64_t> reconfig_ticks; uint64_t tick = 0;   // logical order of events within one virtual instant
   struct TimeoutObs { int64_t t; long sec, usec; bool has; };
   std::vector<TimeoutObs> timeout_obs;
 
@@ -89,7 +90,7 @@ struct Sim {
     r.calls++;
     if (destroyed) { r.calls_after_destroy++; violate("C01.callback-after-destroy", "request " + std::to_string(r.id) + " (" + r.kind + ") called back after ares_destroy returned"); return; }
     if (r.calls > 1) { violate("C01.callback-twice", "request " + std::to_string(r.id) + " (" + r.kind + " " + r.name + ") completed " + std::to_string(r.calls) + " times; statuses " + std::to_string(r.status) + " then " + std::to_string(status)); return; }
-    r.status = status; r.timeouts = timeouts; r.t_end = w.now_us; r.tx_at_end = w.txs.size(); r.prov_at_end = w.provs.size(); r.sync_done = r.in_start;
+    r.status = status; r.timeouts = timeouts; r.t_end = w.now_us; r.tick_end = ++tick; r.tx_at_end = w.txs.size(); r.prov_at_end = w.provs.size(); r.sync_done = r.in_start;
     if (in_cancel && !r.pending_at_cancel && !r.started_during_cancel) {}
     run_script(r);
   }
@@ -154,7 +155,7 @@ struct Sim {
   Bytes req_addr(const Req &r) const { Bytes a; if (r.family == AF_INET6) { a = Bytes(16, '\0'); a[0] = (char)0xfd; a[1] = 0x77; a[14] = (char)((r.id >> 8) & 0xff); a[15] = (char)(r.id & 0xff); } else { a = Bytes{(char)172, (char)16, (char)((r.id >> 8) & 0xff), (char)(r.id & 0xff)}; } return a; }
   void start(Req &r) {
     if (!ch || destroyed) return;
-    r.started = true; r.t_start = w.now_us; r.tx_at_start = w.txs.size(); r.in_start = true;
+    r.started = true; r.t_start = w.now_us; r.tick_start = ++tick; r.tx_at_start = w.txs.size(); r.in_start = true;
     CbArg *arg = arg_for(r.id);
     int dnsclass = ARES_CLASS_IN;
     if (r.kind == "query") ares_query_dnsrec(ch, r.name.c_str(), (ares_dns_class_t)dnsclass, (ares_dns_rec_type_t)r.qtype, cb_dnsrec, arg, nullptr);
